@@ -172,10 +172,13 @@ func (c07Addr) Network() string { return "tcp" }
 func (c07Addr) String() string  { return "c07" }
 
 // c07Conn: a net.Conn whose read side is a c07Src (the "destination" of exit/forward).
-type c07Conn struct{ src *c07Src }
+type c07Conn struct {
+	src *c07Src
+	got []byte
+}
 
 func (c *c07Conn) Read(p []byte) (int, error)         { return c.src.Read(p) }
-func (c *c07Conn) Write(p []byte) (int, error)        { return len(p), nil }
+func (c *c07Conn) Write(p []byte) (int, error)        { c.got = append(c.got, p...); return len(p), nil }
 func (c *c07Conn) Close() error                       { return nil }
 func (c *c07Conn) LocalAddr() net.Addr                { return c07Addr{} }
 func (c *c07Conn) RemoteAddr() net.Addr               { return c07Addr{} }
@@ -186,12 +189,12 @@ func (c *c07Conn) SetWriteDeadline(t time.Time) error { return nil }
 // c07PTY: a PTY session whose output is a c07Src.
 type c07PTY struct{ src *c07Src }
 
-func (p *c07PTY) Read(b []byte) (int, error)         { return p.src.Read(b) }
-func (p *c07PTY) Write(b []byte) (int, error)        { return len(b), nil }
-func (p *c07PTY) Resize(rows, cols uint16) error     { return nil }
-func (p *c07PTY) Signal(sig syscall.Signal) error    { return nil }
-func (p *c07PTY) Wait() int32                        { return 0 }
-func (p *c07PTY) Close()                             {}
+func (p *c07PTY) Read(b []byte) (int, error)      { return p.src.Read(b) }
+func (p *c07PTY) Write(b []byte) (int, error)     { return len(b), nil }
+func (p *c07PTY) Resize(rows, cols uint16) error  { return nil }
+func (p *c07PTY) Signal(sig syscall.Signal) error { return nil }
+func (p *c07PTY) Wait() int32                     { return 0 }
+func (p *c07PTY) Close()                          {}
 
 func c07Data(n int, seed uint64) []byte {
 	r := &rng{s: seed*0x9E3779B97F4A7C15 + uint64(n)}
@@ -239,9 +242,9 @@ func c07Send(e *c07Env, path string, data []byte, cap int, eofTog bool, keys c07
 			mc.Write(nil)
 		}
 	case "exit":
-		exit.C07ReadLoop(e.exitH, e.peer, sid, &c07Conn{src}, keys.send)
+		exit.C07ReadLoop(e.exitH, e.peer, sid, &c07Conn{src: src}, keys.send)
 	case "fwd":
-		forward.C07ReadLoop(e.fwdH, e.peer, sid, &c07Conn{src}, keys.send)
+		forward.C07ReadLoop(e.fwdH, e.peer, sid, &c07Conn{src: src}, keys.send)
 	case "shout":
 		shell.C07PumpStd(agent.C07ShellHandler(e.a), e.peer, sid, keys.send, src, false)
 	case "sherr":
@@ -299,9 +302,15 @@ func c07Send(e *c07Env, path string, data []byte, cap int, eofTog bool, keys c07
 	return src.maxBuf
 }
 
+type c07Frame struct {
+	typ, flags uint8
+	payload    []byte
+}
+
 type c07Obs struct {
-	lens     []int // payload lengths of data-bearing (or unopenable) frames
-	plain    []int // for each of them the length of the stream bytes it yielded (-1: did not open)
+	frames   []c07Frame // everything written to the peer for this stream, in order
+	lens     []int      // payload lengths of data-bearing (or unopenable) frames
+	plain    []int      // for each of them the length of the stream bytes it yielded (-1: did not open)
 	ctlBig   int
 	rx       string
 	received []byte
@@ -326,6 +335,9 @@ func c07Observe(e *c07Env, path string, data []byte, keys c07Keys, sid uint64) c
 			panic(fmt.Sprintf("frame for unexpected stream %d", f.StreamID))
 		}
 		isData := f.Type == protocol.FrameStreamData && len(f.Payload) > 0
+		if !(isData && path == "fdown" && first) {
+			o.frames = append(o.frames, c07Frame{f.Type, f.Flags, f.Payload})
+		}
 		if isData && path == "fdown" && first { // response metadata precedes the file bytes
 			first = false
 			if _, err := keys.newRecv().Decrypt(f.Payload); err != nil {
@@ -398,6 +410,117 @@ func c07Observe(e *c07Env, path string, data []byte, keys c07Keys, sid uint64) c
 	return o
 }
 
+type c07WC struct{ got []byte }
+
+func (w *c07WC) Write(p []byte) (int, error) { w.got = append(w.got, p...); return len(p), nil }
+func (w *c07WC) Close() error                { return nil }
+
+// c07RealReceive feeds the captured frames, in order, to the REAL far-end receiver of the path and
+// returns the stream bytes that come out of it:
+//
+//	tcp              exit.Handler.HandleStreamData -> destination conn
+//	exit, fwd        stream.PushData / HandleRemoteFinWrite -> agent.meshConn.Read (odd-sized reads)
+//	shout/sherr/shpty Agent.handleShellClientData -> ShellStreamAdapter -> session.Receive (as the WebSocket handler drains it)
+//	shin             shell.Handler.HandleStreamData -> session stdin
+//	fup, fdown       stream.PushData -> Agent.receiveEncryptedStreamData
+func c07RealReceive(e *c07Env, path string, frames []c07Frame, keys c07Keys, sid uint64) []byte {
+	defer e.sink.take() // receivers may send CLOSE frames of their own
+	dataFrames := func(fn func(fr c07Frame) bool) {
+		for _, fr := range frames {
+			if fr.typ == protocol.FrameStreamData && !fn(fr) {
+				return
+			}
+		}
+	}
+	switch path {
+	case "tcp":
+		c := &c07Conn{src: &c07Src{}}
+		exit.C07Register(e.exitH, e.peer, sid, c, keys.newRecv())
+		dataFrames(func(fr c07Frame) bool {
+			return e.exitH.HandleStreamData(e.peer, sid, fr.payload, fr.flags) == nil
+		})
+		e.exitH.HandleStreamClose(e.peer, sid)
+		return c.got
+	case "exit", "fwd", "fup", "fdown":
+		st := stream.NewStream(sid, e.a.ID(), e.peer, sid)
+		st.Open()
+		rk := keys.newRecv()
+		st.SetSessionKey(rk)
+		go func() { // what Agent.handleStreamData -> stream.Manager.HandleStreamData does per frame
+			dataFrames(func(fr c07Frame) bool {
+				if len(fr.payload) > 0 && st.PushData(fr.payload) != nil {
+					return false
+				}
+				if fr.flags&protocol.FlagFinWrite != 0 {
+					st.HandleRemoteFinWrite()
+				}
+				return true
+			})
+			st.HandleRemoteFinWrite()
+		}()
+		defer st.Close()
+		if path == "fup" || path == "fdown" {
+			got, _ := agent.C07ReceiveEncrypted(e.a, st, rk, -1)
+			return got
+		}
+		mc := agent.C07MeshConn(e.a, e.peer, sid, st)
+		var got []byte
+		buf := make([]byte, 1+int(sid*7919%40000))
+		for {
+			n, err := mc.Read(buf)
+			got = append(got, buf[:n]...)
+			if err != nil {
+				return got
+			}
+		}
+	case "shout", "sherr", "shpty":
+		ad := health.NewShellStreamAdapter(sid, e.peer, func() {})
+		ad.SetSessionKey(keys.newRecv())
+		agent.C07RegisterShellClient(e.a, sid, ad)
+		sess := ad.ToSession()
+		var got []byte
+		take := func(m []byte) {
+			if mt, pl, err := shell.DecodeMessage(m); err == nil && (mt == shell.MsgStdout || mt == shell.MsgStderr) {
+				got = append(got, pl...)
+			}
+		}
+		// the WebSocket side of handleShellWebSocket takes messages off session.Receive; done here after every
+		// frame, in the same goroutine, so the adapter's drop-when-stalled timeout can never be the cause of a loss
+		drain := func() {
+			for {
+				select {
+				case m := <-sess.Receive:
+					take(m)
+				default:
+					return
+				}
+			}
+		}
+		dataFrames(func(fr c07Frame) bool {
+			if len(fr.payload) == 0 {
+				return true
+			}
+			ok := agent.C07HandleShellClientData(e.a, sid, fr.payload, fr.flags)
+			drain()
+			return ok
+		})
+		ad.Close()
+		drain()
+		return got
+	case "shin":
+		w := &c07WC{}
+		h := agent.C07ShellHandler(e.a)
+		shell.C07StdinSink(h, e.peer, sid, keys.newRecv(), w)
+		dataFrames(func(fr c07Frame) bool {
+			h.HandleStreamData(e.peer, sid, fr.payload, fr.flags)
+			return true
+		})
+		shell.C07Forget(h, sid)
+		return w.got
+	}
+	panic("unknown path " + path)
+}
+
 func c07RLE(xs []int) string {
 	if len(xs) == 0 {
 		return "-"
@@ -457,7 +580,13 @@ func c07Run(line string) string {
 	if o.ctlBig > protocol.MaxPayloadSize {
 		ctl = fmt.Sprintf("big:%d", o.ctlBig)
 	}
-	return fmt.Sprintf("ok data=%d max=%d lens=%s ctl=%s rx=%s", len(o.lens), max, c07RLE(o.lens), ctl, o.rx)
+	out := fmt.Sprintf("ok data=%d max=%d lens=%s ctl=%s rx=%s", len(o.lens), max, c07RLE(o.lens), ctl, o.rx)
+	// the path's real receiver must agree with the frame-by-frame verdict
+	real := bytes.Equal(c07RealReceive(e, path, o.frames, keys, sid), data)
+	if real != (o.rx == "equal") {
+		out += fmt.Sprintf(" realrx=%v", real)
+	}
+	return out
 }
 
 func c07Gen(w *bufio.Writer, seed int64, tier string) {
@@ -588,7 +717,7 @@ func c07Facts(w *bufio.Writer) {
 	// rechunk size of Agent.WriteStreamData: the largest frame it makes of one 300000-byte blob
 	e.sink.take()
 	e.sid++
-	must(e.a.WriteStreamData(e.peer, e.sid, make([]byte, 300000), 0))
+	werr := e.a.WriteStreamData(e.peer, e.sid, make([]byte, 300000), 0)
 	fr := protocol.NewFrameReader(bytes.NewReader(e.sink.take()))
 	rech := 0
 	for {
@@ -600,12 +729,23 @@ func c07Facts(w *bufio.Writer) {
 			rech = len(f.Payload)
 		}
 	}
-	fmt.Fprintf(w, "/-- largest frame payload Agent.WriteStreamData makes of one 300000-byte blob -/\ndef rechunk : Nat := %d\n", rech)
+	if werr != nil && rech == 0 {
+		// the very first slice was refused by Frame.Encode: the slice size is above the frame limit (how far
+		// above makes no difference to any frame that can be written); record the probe size.
+		fmt.Fprintf(w, "/-- Agent.WriteStreamData: the first slice of a 300000-byte blob was refused by Frame.Encode (slice size > MaxPayloadSize) -/\ndef rechunk : Nat := 300000\n")
+	} else {
+		if werr != nil {
+			panic("WriteStreamData: " + werr.Error())
+		}
+		fmt.Fprintf(w, "/-- largest frame payload Agent.WriteStreamData makes of one 300000-byte blob -/\ndef rechunk : Nat := %d\n", rech)
+	}
 	for _, p := range []string{"tcp", "exit", "fwd", "shout", "sherr", "shpty", "shin", "fup", "fdown"} {
 		mb, mpl := probe(p)
-		if p == "shin" && mpl == 0 {
-			// the single 300000-byte STDIN message was not split (and then refused by Frame.Encode)
-			fmt.Fprintf(w, "/-- path shin: a 300000-byte STDIN message was NOT split into frame-sized messages -/\ndef shinBuf : Nat := 300000\n")
+		if (p == "shin" || p == "tcp") && mpl == 0 {
+			// one-frame-per-message paths: the 300000-byte probe write produced no frame at all, i.e. it was not cut
+			// into frame-sized messages (the first message was refused by Frame.Encode). Any bound above the frame
+			// size behaves the same; record the probe size.
+			fmt.Fprintf(w, "/-- path %s: a 300000-byte write was NOT cut into messages that fit a frame (first message refused) -/\ndef %sBuf : Nat := 300000\n", p, p)
 			continue
 		}
 		hdr := 0
